@@ -4,7 +4,15 @@ Spec: {"grid": grid spec (simplices: 1-d cart/tensor, tri, tet, gmsh in the thor
        "K": tensor spec (pbt/gen/fv.py, constant), "frame": bool, "field": {"c":, "a": [3]}}
 frame=True : the spec's matrix is expressed in the frame that moves with the grid (K_ambient = R K R^T);
 frame=False: the spec's matrix is the ambient 3x3 tensor as it stands (for dim < 3 the discretisation
-             uses its tangential block, "is_tangential" False = default)."""
+             uses its tangential block, "is_tangential" False = default).
+"seq": the discretisations run one after the other (["rt0","mvem"], ["mvem","rt0"], ["rt0","rt0","mvem"], ...);
+"share": "data"   - one data / parameter dictionary (and so one tensor, bc, bc_values) for the whole sequence,
+         "tensor" - a fresh data dictionary per step but the same SecondOrderTensor / bc / bc_values objects,
+         "none"   - fresh copies per step.
+"tangential": data["is_tangential"] = True; only honoured for dim < 3 with an isotropic tensor (k I has the same
+         components in every frame, so the parameter is unambiguous).
+If a step modifies the caller's tensor, bc or bc_values (shared modes), that is not reported by itself: an RT0 and
+an MVEM step that use the same objects are appended, and the oracles decide against the data as supplied."""
 from __future__ import annotations
 
 import numpy as np
@@ -23,7 +31,12 @@ RULE = (
     "and a rigid motion (1-d / 2-d grids thereby embedded in arbitrary lines / planes of R^3); a constant SPD tensor "
     "Q diag(l) Q^T, l in [0.1,10] (isotropic / diagonal / full), given either in the frame moving with the grid or as an "
     "arbitrary ambient 3x3 tensor; a linear pressure p = c + a.x. Dirichlet data p(x_f) on every boundary face. For "
-    "both pp.RT0 and pp.MVEM: discretize, assemble_matrix_rhs, sparse direct solve; oracle: extract_flux = "
+    "a sequence of 2-3 discretisations with pp.RT0 and pp.MVEM (both orders, RT0 twice, ...) that share one data / "
+    "parameter dictionary, or one SecondOrderTensor / bc / bc_values with fresh dictionaries, or nothing; for dim < 3 "
+    "with isotropic K optionally is_tangential = True. Each step: discretize, assemble_matrix_rhs, sparse direct solve; "
+    "if a step leaves the shared tensor / bc_values / bc flags modified, an RT0 and an MVEM step using those objects are "
+    "appended (a modification is judged by its consequences, not by itself); oracle for every step, always against the "
+    "data as the caller supplied them: extract_flux = "
     "-(K P a).n_f on every face (P = projection on the grid's tangent space, n_f the stored area-weighted normal) and "
     "extract_pressure = p(cell centre), both to 1e-9 of the problem scale; the mass matrix equals its transpose to "
     "1e-12 relative and its smallest eigenvalue (dense eigvalsh) exceeds 1e-10 times the largest. Non-trivial = at "
@@ -44,9 +57,14 @@ ASSUMPTIONS = [
     "for grids of dimension < 3 the permeability acts through its block in the grid's tangent space (is_tangential False)",
     "'positive definite' is demanded as lambda_min > 1e-10 lambda_max (well-conditioned generated cells and tensors)",
     "the linear system is solved with scipy's sparse direct solver, as in the repository's tests",
+    "discretize / assemble_matrix_rhs do not modify the parameters they are given (no docstring documents in-place "
+    "modification; rt0 / mvem copy the tensor before rotating it)",
+    "is_tangential = True is only generated with an isotropic tensor on grids of dimension < 3 (frame-independent)",
 ]
 REQUIRED = {"dim1": 0.04, "dim2": 0.2, "dim3": 0.15, "embedded": 0.12, "perturbed": 0.15, "affine": 0.03, "K-full": 0.1,
-            "K-iso": 0.1, "K-diag": 0.08, "K-ambient": 0.2, "K-frame": 0.2}
+            "K-iso": 0.1, "K-diag": 0.08, "K-ambient": 0.2, "K-frame": 0.2, "share-data": 0.1, "share-tensor": 0.2,
+            "share-none": 0.1, "shared-first-rt0": 0.2, "shared-first-mvem": 0.1, "shared-3d": 0.1,
+            "shared-3d-rt0-first": 0.05, "is-tangential": 0.03, "shared-is-tangential": 0.02}
 
 KW = "flow"
 RTOL = 1e-9
@@ -66,7 +84,11 @@ def _spec(draw, tier):
         grid["phys"] = [min(p, 2.0 * m) for p in grid["phys"]]
     else:
         grid = draw(grid_spec(dims=(2,) if fam == "tri" else (3,), kinds=(fam,), max_n=5 if thorough else 4))
-    return {"grid": grid, "K": draw(fv.spd_spec()), "frame": draw(st.booleans()), "field": draw(fv.field_spec())}
+    seq = draw(st.sampled_from([["rt0", "mvem"], ["mvem", "rt0"], ["rt0", "rt0"], ["rt0", "rt0", "mvem"],
+                                ["mvem", "mvem", "rt0"], ["rt0", "mvem", "rt0"]]))
+    return {"grid": grid, "K": draw(fv.spd_spec()), "frame": draw(st.booleans()), "field": draw(fv.field_spec()),
+            "seq": seq, "share": draw(st.sampled_from(["data", "tensor", "tensor", "none"])),
+            "tangential": draw(st.integers(0, 2)) == 0}
 
 
 def strategy(tier):
@@ -112,33 +134,81 @@ def check(spec):
     amax = float(g.face_areas.max())
     q_scale = max(float(np.abs(q_ex).max()), kmax * max(pmax, prange) * amax / hmin)
 
-    for name, cls in (("rt0", pp.RT0), ("mvem", pp.MVEM)):
-        params = {"second_order_tensor": K.copy(), "bc": bc, "bc_values": bc_val.copy()}
-        data = pp.initialize_data({}, KW, params)
+    seq = spec.get("seq") or ["rt0", "mvem"]
+    share = spec.get("share", "none")
+    tangential = bool(spec.get("tangential")) and g.dim < 3 and spec["K"]["kind"] == "iso"
+    K_ref = K.values.copy()
+    bcv_ref = bc_val.copy()
+    dir_ref, neu_ref = bc.is_dir.copy(), bc.is_neu.copy()
+
+    def new_data():
+        if share == "none":
+            params = {"second_order_tensor": K.copy(), "bc": bc, "bc_values": bc_val.copy()}
+        else:
+            params = {"second_order_tensor": K, "bc": bc, "bc_values": bc_val}
+        d = pp.initialize_data({}, KW, params)
+        if tangential:
+            d["is_tangential"] = True
+        return d
+
+    def inputs_unchanged():
+        # Not a demand of the property by itself: a discretisation that modifies its inputs is only wrong through its
+        # consequences. When a modification is seen, further discretisations with the same (shared) objects are
+        # appended to the sequence below, and the usual oracles - against the data as the caller supplied them - decide.
+        Kp = data[pp.PARAMETERS][KW]["second_order_tensor"]
+        return (Kp.values.shape == K_ref.shape and np.array_equal(Kp.values, K_ref)
+                and np.array_equal(data[pp.PARAMETERS][KW]["bc_values"], bcv_ref)
+                and np.array_equal(bc.is_dir, dir_ref) and np.array_equal(bc.is_neu, neu_ref))
+
+    data = new_data() if share == "data" else None
+    steps = list(seq)
+    mutated = False
+    step = -1
+    while step + 1 < len(steps):
+        step += 1
+        name = steps[step]
+        cls = {"rt0": pp.RT0, "mvem": pp.MVEM}[name]
+        if share != "data":
+            data = new_data()
         solver = cls(KW)
         solver.discretize(g, data)
         M, rhs = solver.assemble_matrix_rhs(g, data)
+        if not mutated and share != "none" and not inputs_unchanged():
+            mutated = True  # the caller's objects were modified: see what that does to the next users of them
+            steps += ["rt0", "mvem"]
         require(M.shape == (g.num_faces + g.num_cells,) * 2 and rhs.shape == (g.num_faces + g.num_cells,),
                 name + "-system-shape", f"{M.shape}, {rhs.shape}")
         up = spla.spsolve(sps.csc_matrix(M), rhs)
         require(bool(np.all(np.isfinite(up))), name + "-solution-finite", "non-finite solution of the mixed system")
         q = solver.extract_flux(g, up, data)
         p = solver.extract_pressure(g, up, data)
-        require_close(q, q_ex, name + "-flux", rtol=RTOL, scale=q_scale, what=f"{name}: extract_flux vs -(K grad p).n_f")
+        where = f"{name} (step {step} of {'>'.join(steps)}, share={share}{', inputs modified by an earlier step' if mutated else ''})"
+        require_close(q, q_ex, name + "-flux", rtol=RTOL, scale=q_scale, what=f"{where}: extract_flux vs -(K grad p).n_f")
         require_close(p, p_ex, name + "-pressure", rtol=RTOL, scale=max(pmax, 1e-300),
-                      what=f"{name}: extract_pressure vs p(cell centre)")
+                      what=f"{where}: extract_pressure vs p(cell centre)")
 
         mass = data[pp.DISCRETIZATION_MATRICES][KW][solver.mass_matrix_key]
         A = sps.csr_matrix(mass).toarray()
         require(A.shape == (g.num_faces, g.num_faces), name + "-mass-shape", f"{A.shape}")
         amx = float(np.abs(A).max())
         asym = float(np.abs(A - A.T).max())
-        require(asym <= 1e-12 * amx, name + "-mass-symmetric", f"{name}: |M - M^T| = {asym:.3e} vs |M| = {amx:.3e}")
+        require(asym <= 1e-12 * amx, name + "-mass-symmetric", f"{where}: |M - M^T| = {asym:.3e} vs |M| = {amx:.3e}")
         ev = np.linalg.eigvalsh(0.5 * (A + A.T))
         require(ev[0] > 1e-10 * ev[-1], name + "-mass-positive-definite",
-                f"{name}: eigenvalues of the mass matrix in [{ev[0]:.3e}, {ev[-1]:.3e}]")
+                f"{where}: eigenvalues of the mass matrix in [{ev[0]:.3e}, {ev[-1]:.3e}]")
 
     labels = list(meta["labels"]) + ["K-" + spec["K"]["kind"], "K-frame" if spec["frame"] else "K-ambient"]
+    labels += ["share-" + share, "seq-" + ">".join(seq)]
+    if share != "none":
+        labels.append("shared-first-" + seq[0])
+        if g.dim == 3:
+            labels.append("shared-3d")
+            if seq[0] == "rt0":
+                labels.append("shared-3d-rt0-first")
+    if tangential:
+        labels.append("is-tangential")
+        if share != "none":
+            labels.append("shared-is-tangential")
     grad_t = float(np.linalg.norm(P @ a))
     if grad_t < 1e-2:
         labels.append("flat-field")
